@@ -220,35 +220,48 @@ PENDING_REASON = "check not built yet in this round (see DESIGN.md §9 for the c
 
 # what the second build session added to each machine (DESIGN.md §10.10)
 EXTRA = {
- "C10": "The hand-written adders of CT_GroupShape (add_autoshape ... add_textbox) are declarations read off their behaviour (op Hand) and judged like the generated inserters; every call is repeated on siblings that hold descendants named like the children.",
- "C01": "Parts of the builder may be image-typed (the content type selects the part class python-pptx builds; several parts may hold the same bytes).",
+ "C09": "The last gradient stop as well as the first, interior stop positions; generated decks among the corpus objects.",
+ "C05": "Derived flows: a string already stored on a layout / notes-master placeholder when add_slide / notes_slide clones it.",
+ "C10": "The hand-written adders of CT_GroupShape (add_autoshape ... add_textbox) are declarations read off their behaviour (op Hand) and judged like the generated inserters; every call is repeated on siblings that hold descendants named like the children."
+        " Hand-written get-or-add methods keyed by an index child (dPt / dLbl for a point) with keyed tags (op HandGetOrAdd).",
+ "C01": "Parts of the builder may be image-typed (the content type selects the part class python-pptx builds; several parts may hold the same bytes)."
+        " External targets in several spellings (escaped reserved characters, lower-case escapes, back-slashes).",
  "C02": "Part lifecycle: decks whose unused layout carries a picture (genlogo) or whose image parts hold identical bytes (gendupimg), picture tokens "
         "chosen by the model, layout removal in every order relative to picture additions (an image part lives while a relationship reaches it)."
-        " Also a deck in which generic parts (custom XML item, theme) alone reach further parts (gengeneric), a deck with relationship ids that are not rId<N>, ten pictures of one format.",
+        " Also a deck in which generic parts (custom XML item, theme) alone reach further parts (gengeneric), a deck with relationship ids that are not rId<N>, ten pictures of one format."
+        " A deck whose part numbering has a gap (gengap).",
  "C03": "Further hosts (mbt/checks/c03_hosts.py): the histories of the Table, TextBody, Geometry (connector / group / freeform) and Layout machines are "
         "replayed by their own drivers with the XSD monitor switched on and judged by the same clauses (a call that returned: AllPartsValid; a call that "
-        "raised: RejectedKeepsValidity).",
+        "raised: RejectedKeepsValidity)."
+        " Every single catalogued assignment also on the objects of a generated deck with 3-D bar / line / pie charts.",
  "C04": "Also: assigning at frame / paragraph level exactly the string that level reads at the moment (reassign actions), on prior bodies whose runs "
-        "hold newline / tab characters.",
- "C06": "The allocator machines (Alloc.tla) lay the pre-existing identifiers down in ascending and in descending DOCUMENT order: the allocators are functions of the set.",
+        "hold newline / tab characters."
+        " A text-frame object obtained before the calls is kept and read after every step (KeptObjectAgrees).",
+ "C06": "The allocator machines (Alloc.tla) lay the pre-existing identifiers down in ascending and in descending DOCUMENT order: the allocators are functions of the set."
+        " Shape ids carried by members of a group / an AlternateContent fallback; allocation inside a group.",
  "C07": "The chart-data object handed to replace_data is also STAGED (one object, rendered into a throw-away chart when half built - left spine of "
         "the category tree, first series / point - then completed): nothing an earlier rendering computed may be remembered."
-        " The multi-plot corpus charts are replaced with every series count from one to more than they hold.",
+        " The multi-plot corpus charts are replaced with every series count from one to more than they hold."
+        " A zero as the first numeric category.",
  "C08": "Sites: add_chart, replace_data, one object reused after growing (ReuseData), one object rendered when half built and then completed (StagedData); "
-        "every series count from 1 to n+1 on every multi-plot corpus chart.",
+        "every series count from 1 to n+1 on every multi-plot corpus chart."
+        " Decks in which chart and workbook numbers are not aligned (an OLE workbook added first).",
  "C11": "Setter level (PropRefusal.tla): on the traces of C09's property machine (every catalogued property x every out-of-domain / wrong-type value, "
         "alone and after an accepted assignment) a call refused with TypeError / ValueError loses no attribute value or text the part held.",
  "C12": "Generated decks join every tier: one slide per layout, every shape kind + notes, a canvas-window group, and a deck whose slide part names are "
         "out of order with a gap (slide3, slide1, slide4) with notes pages."
-        " A slide with content of other producers (mc:AlternateContent on the slide and in a group, a p:nvPr extension list).",
+        " A slide with content of other producers (mc:AlternateContent on the slide and in a group, a p:nvPr extension list)."
+        " A slide-number field whose text is not the slide's position.",
  "C13": "Layout placeholders carried by p:pic / p:graphicFrame (filled in Slide Master view); a deck with out-of-order slide part names; after a re-open "
         "every slide is still there in order with its content (ReopenKeepsSlides)."
-        " The layout's placeholder elements are removed / reordered between two slide additions (dropPh / movePh): a slide mirrors the layout as it is then.",
+        " The layout's placeholder elements are removed / reordered between two slide additions (dropPh / movePh): a slide mirrors the layout as it is then."
+        " Geometry inherited pair by pair (a position without a size and the reverse).",
  "C14": "Actions also resize the graphic frame itself (frame size = sum is the post-condition of a row/column change, whatever the frame was); text "
         "patterns with bodies of 1/2/3 empty paragraphs; document variants of the table (no a:tblPr, no a:tcPr, a:extLst children).",
  "C15": "Part lifecycle: a layout carrying a picture is removed (its image part leaves the package, its name is free again; MC_Media transcribes "
         "next_image_partname and keeps the live names in the state); every picture added is re-read after every step and from the re-opened file; "
-        "one file path overwritten with images of identical byte length.",
+        "one file path overwritten with images of identical byte length."
+        " Images with an EXIF orientation.",
  "C16": "Corpus faults include two relationships to one absent part and an absent part that several relationships target."
         " An unreferenced member whose name differs only in letter case from a reachable part, stored after / before it.",
  "C17": "Connectors also start from frames as a document holds them (zero extent with the flip attribute set); a freeform pen may be converted while "
@@ -256,7 +269,8 @@ EXTRA = {
  "C18": "W3CDTF fractions of 7, 9 and 12 digits; a text class that looks like an OOXML character escape."
         " Initial package written by another producer (mixed-content cp:keywords, xml:lang, other child order).",
  "C19": "Accessor family: index 0, zero-padded digits, 9 / 10 / 100, long stems, 2^31-1."
-        " Names with two consecutive periods.",
+        " Names with two consecutive periods."
+        " Names outside ASCII (combining accent, precomposed).",
  "C20": "Hosts: slide, group, and a slide that already holds a customised shape (chart) of the same type.",
 }
 for _k, _v in EXTRA.items():
